@@ -90,6 +90,7 @@ def warm():
     # index / pack objects order by address otherwise: with ten or more packs in a run's
     # repository the order of index reads would depend on the process history
     storesim.install_pins()
+    T.install_order_pin()
 
     # one dry run per flavour: every lazily imported module is loaded before the fork
     saved = {k: os.environ.get(k) for k in ("VERIF_SCRATCH", "BRZ_HOME", "HOME")}
@@ -194,6 +195,16 @@ def generate(rng, tier, compare=False):
     if compare:
         plan["every"] = rng.choice([1, 2, 3])
         plan["filters"] = [sorted(rng.sample(names + ["zz", "a/zz"], rng.randint(1, 3))) for _ in range(3)]
+        # a redundant filter: a directory, something below it, and (if the namespace has
+        # one) the sibling that sorts between the two
+        nested = [(d, p) for d in names for p in names if T.strictly_inside(d, p)]
+        if nested and rng.random() < 0.6:
+            d, p = rng.choice(nested)
+            f = [d, p] + [s for s in names if s in (d + "-x", d + ".x")]
+            if len(f) == 2 and rng.random() < 0.5:
+                f.append(d + "-x")  # need not exist
+            rng.shuffle(f)
+            plan["filters"][rng.randrange(3)] = f
     return plan
 
 
